@@ -39,7 +39,7 @@ func checkC18(c *Ctx) {
 		"(W2-fresh) the version directory name contains a per-call unique component (time.Now at nano/microsecond resolution or a temp/random name). " +
 		"(W2-frozen) the path fields of Dir are written only at construction; the previous-version field only by Write and the functions it calls. " +
 		"(W3-leftover) every create-type call that fails with EEXIST (Symlink/Link/Mkdir) on a path that is identical on every call is preceded on all paths by a removal of that path; if it is not, a may-dataflow follows the fact 'the creation may have failed because a leftover exists and the path was not re-created since' (dropped where the error is known nil, known not to be ErrExist via errors.Is/os.IsExist/IsNotExist, or on the success edge of a later creation of the same link): reaching the consuming rename with that fact is a VIOLATION (the stale link of the crashed call is published and nil returned), never reaching it without a re-creation is the 'file exists forever' VIOLATION, a successful re-creation discharges it; error handling that cannot be classified, or an os.Readlink comparison, is UNDECIDED. " +
-		"(S1, NOTE only) crypto/spiffe hands key, chain and anchors to one Write call in one map. " +
+		"(S2-dir-lifetime) the Dir an in-module caller writes to is traced to its dir.New call (through locals, helpers that return it, the field it is kept in): a Dir constructed in a function that provably runs again for every write (called from a loop, from several places, or by such a function; or constructed in a loop) is a VIOLATION — every Write then sees an empty previous-version field and superseded version directories pile up without any crash; a Dir constructed once by a constructor and kept is OK; an origin that cannot be traced, or a caller that is not provably repeated, is only noted. (S1, NOTE only) crypto/spiffe hands key, chain and anchors to one Write call in one map. " +
 		"A call that matters and cannot be expanded (recursion, go statements, *os.File methods, os functions outside the model) makes every 'required step missing' finding UNDECIDED, never a VIOLATION. " +
 		"NOT decided: the actual file-system states at each crash point, durability (no fsync is demanded), the atomicity of rename(2) and symlink semantics of the OS (assumed), concurrent Writes on one Dir or two Dirs on one target, version directories orphaned by a crash (the statement only asks for cleanup without crashes), relative target paths, clock steps backwards, effects of dynamic calls (interface methods such as the logger, function values of unknown origin are assumed not to touch the target's directory)."
 	r.Assumptions = append(r.Assumptions,
@@ -57,6 +57,7 @@ func checkC18(c *Ctx) {
 	r.Rule(R.Fresh, "version directory name unique per call", 1)
 	r.Rule("C18.W2-frozen", "the path fields of Dir are stored only into freshly constructed values (read as the constructor's term over Options.Target); the previous-version field only by Write and its callees", 2)
 	r.Rule(R.Leftover, "EEXIST-failing creation on a call-invariant path is preceded by its removal, or the link is provably created again after the failure; tolerating/ignoring EEXIST is a violation (stale link published)", 1)
+	r.Rule("C18.S2-dir-lifetime", "every in-module Write acts on a Dir that is constructed once and kept, not constructed anew for every write (else prev is always empty and old versions accumulate without any crash)", 1)
 	r.Rule("C18.S1-spiffe", "(NOTE only) crypto/spiffe: one Write call with one map literal", 1)
 
 	write := p.Func("concurrency/dir", "Dir.Write")
@@ -141,6 +142,11 @@ func checkC18(c *Ctx) {
 
 	// ---- S1 (NOTE only) ---------------------------------------------------------------
 	c18Spiffe(c, write)
+	c18Lifetime(c, write, p.Func("concurrency/dir", "New"))
+
+	c.Fixture("c18life", func(fp *Prog, fr *Report) {
+		c18LifetimeOn(fp, fr, fp.Func("", "W.Write"), fp.Func("", "NewW"), "S2-dir-lifetime", true)
+	})
 
 	// ---- fixtures ------------------------------------------------------------------------
 	c.Fixture("c18dir", func(fp *Prog, fr *Report) {
